@@ -1017,3 +1017,8 @@ mod tests {
         assert!(poll_immediate(&mut st).next().await.is_none());
     }
 }
+
+#[cfg(kani)]
+mod verif_kani {
+    include!(concat!(env!("IPA_VERIF_DIR"), "/kani/chunks.rs"));
+}
